@@ -399,11 +399,7 @@ def _ensures_lel_some(body):
     ws = [pt for (pt, d, v, s) in writes(body) if self_field(d, 'lel') and isinstance(v, tuple) and v[0] == 'aggr' and v[2] == 'Some']
     def acc(atoms, lit):
         for a in atoms:
-            if a[0] == 'F' and M.is_call(a[1], 'is_none') and self_field(a[1][2][0], 'lel'):
-                return True
-            if a[0] == 'T' and M.is_call(a[1], 'is_some') and self_field(a[1][2][0], 'lel'):
-                return True
-            if a[0] == 'in' and self_field(a[1], 'lel') and a[2] == frozenset(['Some']):
+            if opt_is(a, lambda x: self_field(x, 'lel'), 'Some'):
                 return True
         return False
     cut = _cut_edges(body, acc)
@@ -515,7 +511,7 @@ def r_squash(ctx):
             for (pt, d, v, s) in writes(body):
                 if self_field(d, 'is_exact'):
                     okv = M.is_const(v, False) or (M.is_const(v, True) and body.fn_name in ('_clear', 'new')) or \
-                        (M.is_call(v, 'is_none') and self_field(v[2][0], 'lel') and body.fn_name == '_finalize_exact')
+                        (is_variant_test(v, lambda x: self_field(x, 'lel'), 'None') and body.fn_name == '_finalize_exact')
                     ctx.check(okv, 'R01.7', '%s/is_exact-write/%s' % (tag, short(body)), body, body.loc(*pt), 'is_exact is written with false, with lel.is_none() at finalisation, or reset to true by _clear',
                               'is_exact := %s in %s' % (M.show(v), body.fn_name))
                 if self_field(d, 'lel'):
@@ -523,6 +519,14 @@ def r_squash(ctx):
                         (isinstance(v, tuple) and v[0] == 'aggr' and v[2] == 'Some' and body.fn_name in ('_maybe_save_lel', '_finalize_cutset'))
                     ctx.check(okv, 'R01.7', '%s/lel-write/%s' % (tag, short(body)), body, body.loc(*pt), 'lel is set by _maybe_save_lel / _finalize_cutset and reset by _clear only',
                               'lel := %s in %s' % (M.show(v), body.fn_name))
+        # when a squash records the inexactness through `lel` only, the claim itself is computed at finalisation — on every path
+        if not all(_writes_inexact(ctx.body(adt, '_' + k_)) for k_ in ('restrict', 'relax')):
+            fe_b = ctx.body(adt, '_finalize_exact')
+            wsx = [pt for (pt, d, v, s) in writes(fe_b) if self_field(d, 'is_exact') and is_variant_test(v, lambda x: self_field(x, 'lel'), 'None')]
+            r_ = fe_b.reach([(0, 0)], avoid=wsx)
+            ctx.check(bool(wsx) and not any(p_ in r_ for p_ in ret_points(fe_b)), 'R01.7', tag + '/is_exact-finalised', fe_b, fe_b.loc(0),
+                      'every path through _finalize_exact computes is_exact := lel.is_none() (the squash only records lel)',
+                      'a squashed layer is recorded through lel only, but _finalize_exact does not compute is_exact := lel.is_none() on every path: the diagram keeps claiming exactness after restricting / merging')
         if tag == 'Mdd':
             # _finalize_cutset must not run before _finalize_exact (it fills lel in)
             fb = ctx.body(adt, '_finalize')
@@ -945,7 +949,7 @@ def r_thresholds(ctx):
                 elif M.is_const(inner) and (inner[2] or '').endswith('MAX'):
                     form = 'MAX (exact node without threshold)'
                     ok2, _, _ = M.guarded(body, [pt], lambda atoms, lit: any(a[0] == 'T' and M.is_call(a[1], 'is_exact') and node_field(a[1][2][0], 'flags') == idx for a in atoms))
-                    ok3, _, _ = M.guarded(body, [pt], lambda atoms, lit: any(a[0] == 'T' and M.is_call(a[1], 'is_none') and nf(a[1][2][0], 'theta') for a in atoms))
+                    ok3, _, _ = M.guarded(body, [pt], lambda atoms, lit: any(opt_is(a, lambda x: nf(x, 'theta'), 'None') for a in atoms))
                     ctx.check(ok2 and ok3, 'R09.5', tag + '/theta-max-guard', body, body.loc(*pt), 'theta = MAX only for exact nodes that received no threshold from below',
                               'theta = MAX is assigned to a node that is not (exact and still without threshold)')
                 elif inner[0] == 'min' and len(inner[1]) == 2 and body.kind == 'closure':
@@ -964,6 +968,58 @@ def r_thresholds(ctx):
                                       'thresholds are propagated along the inbound arcs of the node whose theta is used', 'theta propagation does not iterate the inbound arcs of the child whose theta it uses')
                 ctx.check(form is not None, 'R09.5', '%s/theta-write/%s' % (tag, form or 'unknown'), body, body.loc(*pt), 'theta write of an allowed form: %s' % form,
                           'a write to Node.theta is not of an allowed form: theta := %s' % M.show(v)[:300])
+        # the own-threshold cases are not optional: on the rough-bound edge (value_top + rub <= best_known) and for a cut-set node, a theta is
+        # written before the node is handed to the cache / the next node is taken (a node left with the theta inherited from SOME of its
+        # children would be cached with a threshold that ignores the other routes below it)
+        thw = [(pt, node_field(d, 'theta')) for (pt, d, v, s_) in writes(b) if node_field(d, 'theta') is not None]
+        ends_ = [b.term_point(bb) for (bb, t) in muc] + ret_points(b)
+        tot_rub = lambda t: isinstance(t, tuple) and t[0] == 'add' and len(t[1]) == 2 and any(node_field(x, 'rub') is not None for x in t[1]) and any(node_field(x, 'value_top') is not None for x in t[1])
+        for (what, pred_) in (('rough-bound', lambda atoms, lit: any(M.cmp_matches(a, tot_rub, lambda t: _best_known_ok(b, t), '<=') for a in atoms)),
+                             ('cut-set', lambda atoms, lit: any(a[0] == 'T' and M.is_call(a[1], 'is_cutset') and node_field(a[1][2][0], 'flags') is not None for a in atoms))):
+            edges_ = _cut_edges(b, pred_)
+            starts_ = [(tb, 0) for (bbk, lab) in edges_ for (tb, l_) in b.succ(bbk) if l_ == lab]
+            r_ = b.reach(starts_, avoid=[pt for (pt, ix) in thw])
+            ctx.check(bool(starts_) and not any(p_ in r_ for p_ in ends_), 'R09.5', '%s/theta-mandatory/%s' % (tag, what), b, b.loc(starts_[0][0]) if starts_ else b.loc(0),
+                      'in the %s case every path writes the node\'s own theta before the cache update' % what,
+                      'in the %s case a path reaches the cache update without writing the node\'s own theta: the cached threshold is the one inherited from some children only' % what)
+        # terminal nodes: theta := best_known EXACTLY when (last-exact-layer cut-set and the diagram is exact) or (frontier cut-set and the
+        # node is exact) — decided per case; a terminal that misses it falls into the dangling-node case below (theta = MAX)
+        term_fld = TERMINAL[tag]
+        nxs = [(bb, t) for (bb, t) in b.calls_to('Iterator::next') if M.contains(b.origin.operand(t['args'][0], b.term_point(bb)), lambda x: M.is_call(x, 'values') and self_field(x[2][0], term_fld))]
+        if ctx.floor('R09.5', tag + '/terminal-loop', b, len(nxs), 1, 'loop over the terminal nodes in _compute_thresholds'):
+            (nbb, nt) = nxs[0]
+            nxp = b.term_point(nbb)
+            nxt_ = b.origin.call(nt, nxp)
+            item = id0(M.simplify_field(M.simplify_variant(nxt_, 'Some'), '0', None))
+            some_edges = [(tb, 0) for bbk in b.live_blocks() if b.term(bbk)['k'] == 'switch' for (tb, lab) in b.succ(bbk)
+                          if (lambda lit: lit and lit[0] == 'in' and lit[1] == nxt_ and lit[2] == frozenset(['Some']))(M.edge_literal(b, bbk, lab))]
+            tw = set(pt for body_ in [b] for (pt, d, v, s_) in writes(b) if node_field(d, 'theta') == item and isinstance(v, tuple) and v[0] == 'aggr' and v[2] == 'Some' and _best_known_ok(b, v[3][0][1]))
+            paths_ = []
+            for st in some_edges:
+                for (edges, blocks, end) in M.enumerate_paths(b, st, stops=[nxp]):
+                    atoms = M.path_atoms(b, edges)
+                    if M.consistent(atoms):
+                        paths_.append((atoms, any(pt[0] in blocks for pt in tw)))
+            consts_ = {k.split('::')[-1]: v['int'] for k, v in ctx.F.consts.items() if k.endswith(('::LAST_EXACT_LAYER', '::FRONTIER')) and 'int' in v}
+            generic = any(M.contains(a_, lambda x: isinstance(x, tuple) and x and x[0] == 'cparam') for (atoms, w_) in paths_ for a_ in atoms)
+            bad_ = []
+            kinds = (('LAST_EXACT_LAYER', 'FRONTIER') if generic else ('FRONTIER',))
+            for kind in kinds:
+                for ddx in (True, False):
+                    for ndx in (True, False):
+                        env = [(lambda t: isinstance(t, tuple) and t and t[0] == 'cparam', consts_.get(kind)),
+                               (lambda t: isinstance(t, tuple) and t and t[0] == 'const' and (t[2] or '').endswith('::LAST_EXACT_LAYER'), consts_.get('LAST_EXACT_LAYER')),
+                               (lambda t: isinstance(t, tuple) and t and t[0] == 'const' and (t[2] or '').endswith('::FRONTIER'), consts_.get('FRONTIER')),
+                               (lambda t: self_field(t, 'is_exact'), ddx),
+                               (lambda t: M.is_call(t, 'is_exact') and node_field(t[2][0], 'flags') == item, ndx)]
+                        outs = set(w_ for (atoms, w_) in paths_ if case_feasible(atoms, env))
+                        want = (ddx if kind == 'LAST_EXACT_LAYER' else ndx)
+                        if outs != {want}:
+                            bad_.append((kind, 'diagram exact' if ddx else 'diagram inexact', 'node exact' if ndx else 'node inexact', 'written: %s' % sorted(outs)))
+            ctx.stats['paths'] += len(paths_)
+            ctx.check(bool(paths_) and bool(tw) and not bad_ and len(consts_) == 2, 'R09.5', tag + '/terminal-theta-table', b, b.loc(nbb),
+                      'a terminal node receives theta = best_known exactly when (LEL cut-set and exact diagram) or (frontier cut-set and exact node) (%d cases)' % (4 * len(kinds)),
+                      'terminal thresholds deviate from the table in case(s) %s: an exact terminal that is skipped gets theta = MAX as a dangling node and a better arrival at that state is pruned for ever' % bad_[:3])
         # R09.2 _maybe_update_cache
         mb = ctx.body(adt, '_maybe_update_cache')
         ut = mb.calls_to('Cache::update_threshold')
@@ -1082,7 +1138,7 @@ def r_filters(ctx):
             ctx.check(eff == ['set_pruned_by_cache', 'theta'], 'R09.4', tag + '/filter-only-records-flag-and-theta', c, c.loc(gt[0]), 'the cache filter changes nothing on a node except the cache flag and theta',
                       'the cache filter has other effects on the node: %s' % eff)
             # pruned => flag + theta, on every path that may answer false
-            flagp = set(bb for (bb, t) in c.calls_to('set_pruned_by_cache'))
+            flagp = set(bb for (bb, t) in c.calls_to('set_pruned_by_cache') if M.is_const(c.origin.operand(t['args'][1], c.term_point(bb)), True))
             tw = set(pt[0] for (pt, d, v, s) in writes(c) if node_field(d, 'theta') == idx and isinstance(v, tuple) and v[0] == 'aggr' and v[2] == 'Some' and thv(v[3][0][1]))
             good = bool(flagp) and bool(tw)
             npaths = 0
@@ -1412,6 +1468,15 @@ def r_best_nodes(ctx):
                 ok, cut, bad = M.guarded(fe, cp, lambda atoms, lit: any(_is_relaxed_lit(a) for a in atoms))
                 ctx.check(good and ok and bool(cp), 'R02.6', tag + '/has_exact_best_path-origin', fe, fe.loc(*pt), 'has_exact_best_path = Relaxed && _has_exact_best_path(best_node)',
                           'has_exact_best_path := %s' % ', '.join(M.show(x) for x in defs))
+        # ... and the promotion is not optional: is_exact() answers true when has_exact_best_path, so the exact accessors must then
+        # describe the best node (otherwise the solver stops on a 'proved' value below the sub-problem optimum)
+        prom = [pt for (pt, d, v, s) in writes(fe) if self_field(d, 'best_exact_node') and self_field(v, 'best_node')]
+        hebp = _cut_edges(fe, lambda atoms, lit: any(a[0] == 'T' and self_field(a[1], 'has_exact_best_path') for a in atoms))
+        starts_ = [(tb, 0) for (bbk, lab) in hebp for (tb, l_) in fe.succ(bbk) if l_ == lab]
+        r_ = fe.reach(starts_, avoid=prom)
+        ctx.check(bool(prom) and bool(starts_) and not any(p_ in r_ for p_ in ret_points(fe)), 'R02.6', tag + '/exact-best-path-promotes', fe, fe.loc(0),
+                  'whenever has_exact_best_path holds, best_exact_node := best_node is executed (every path)',
+                  'a diagram can claim an exact best path (is_exact() = true) without promoting best_node to best_exact_node: best_exact_value stays below the value it claims to have proved')
         # who else writes best_exact_node / best_node
         for body in dd_unit(ctx, tag):
             for (pt, d, v, s) in writes(body):
@@ -1791,3 +1856,85 @@ def r_pooled_layers(ctx):
         nvt = cp.origin.call(nv[0][1], cp.term_point(nv[0][0]))
         ctx.check(va == M.simplify_field(M.simplify_variant(nvt, 'Some'), '0', None), 'R15.1', 'layer-variable', cp, cp.loc(mvc[0][0]), '_move_to_next_layer receives the variable chosen by next_variable for this layer',
                   '_move_to_next_layer receives variable %s' % M.show(va)[:160])
+
+
+# ------------------------------------------------------------------------------------------------
+# R06.5 — Mdd layer bookkeeping: the next layer is moved completely into the expanded vector; recorded layers are contiguous ranges
+# ------------------------------------------------------------------------------------------------
+def r_layers(ctx):
+    tag, adt = 'Mdd', MDD
+    mv = ctx.body(adt, '_move_to_next_layer')
+    # (1) every node of next_l reaches the vector handed to the expansion
+    drained = lambda x: M.is_call(x, 'drain') and self_field(x[2][0], 'next_l')
+    layer = lambda t: M.is_param(t, index=2)
+    bulk = [(bb, t) for (bb, t) in mv.calls_to('extend', 'append', 'extend_from_slice') if layer(mv.origin.operand(t['args'][0], mv.term_point(bb))) and
+            M.contains(mv.origin.operand(t['args'][1], mv.term_point(bb)), drained)]
+    good = False
+    if bulk:
+        r = mv.reach([(0, 0)], avoid=[mv.term_point(bb) for (bb, t) in bulk])
+        good = not any(p in r for p in ret_points(mv))
+    fe_ = [(bb, t) for (bb, t) in mv.calls_to('for_each') if M.contains(mv.origin.operand(t['args'][0], mv.term_point(bb)), drained)]
+    if not bulk and fe_:
+        # drain().for_each(|(_, id)| layer.push(id))
+        (fbb, ft) = fe_[0]
+        cl = mv.origin.operand(ft['args'][1], mv.term_point(fbb))
+        cb = ctx.F.bodies.get(cl[1]) if isinstance(cl, tuple) and cl and cl[0] == 'closure' else None
+        if cb is not None:
+            ps_ = [cb.term_point(bb) for (bb, t) in cb.calls_to('push') if (lambda d_: layer(d_) or (isinstance(d_, tuple) and d_ and d_[0] == 'var' and d_[1] == mv.name))(cb.origin.operand(t['args'][0], cb.term_point(bb))) and
+                   M.contains(cb.origin.operand(t['args'][1], cb.term_point(bb)), lambda x: M.is_param(x, index=1) and x[1] == cb.name)]
+            rc_ = cb.reach([(0, 0)], avoid=ps_)
+            r = mv.reach([(0, 0)], avoid=[mv.term_point(fbb)])
+            good = bool(ps_) and not any(p in rc_ for p in ret_points(cb)) and not any(p in r for p in ret_points(mv))
+    elif not bulk:
+        nx = [(bb, t) for (bb, t) in mv.calls_to('Iterator::next') if M.contains(mv.origin.operand(t['args'][0], mv.term_point(bb)), drained)]
+        if nx:
+            (nbb, nt) = nx[0]
+            nxp = mv.term_point(nbb)
+            nxt = mv.origin.call(nt, nxp)
+            pushes = [mv.term_point(bb) for (bb, t) in mv.calls_to('push') if layer(mv.origin.operand(t['args'][0], mv.term_point(bb))) and
+                      M.contains(mv.origin.operand(t['args'][1], mv.term_point(bb)), lambda x: x == nxt)]
+            some_edges = [(tb, 0) for bbk in mv.live_blocks() if mv.term(bbk)['k'] == 'switch' for (tb, lab) in mv.succ(bbk)
+                          if (lambda lit: lit and lit[0] == 'in' and lit[1] == nxt and lit[2] == frozenset(['Some']))(M.edge_literal(mv, bbk, lab))]
+            r = mv.reach(some_edges, avoid=pushes)
+            r0 = mv.reach([(0, 0)], avoid=[nxp])
+            good = bool(pushes) and bool(some_edges) and nxp not in r and not any(p in r for p in ret_points(mv)) and not any(p in r0 for p in ret_points(mv))
+    ctx.check(good, 'R06.5', tag + '/next-layer-moved-completely', mv, mv.loc(0), 'every node of next_l is moved into the vector that is filtered, squashed and expanded (on every path)',
+              'a node of the next layer can be left out of the vector handed to the expansion (next_l.drain() is not pushed / extended into the layer vector on every path)')
+    # (2) recorded layers: {0, 0} marker | {from: 0 when no layer yet | previous layer's `to`, to: nodes.len()}
+    for b in (mv, ctx.body(adt, '_finalize_layers')):
+        n = 0
+        bad = []
+        for (bb, t) in b.calls_to('push'):
+            a = [b.origin.operand(x, b.term_point(bb)) for x in t['args']]
+            if not self_field(a[0], 'layers'):
+                continue
+            okg_e, _, _ = M.guarded(b, [b.term_point(bb)], lambda atoms, lit: any(empty_lit(a_, lambda x: self_field(x, 'layers'), empty=True) for a_ in atoms))
+            okg_n, _, _ = M.guarded(b, [b.term_point(bb)], lambda atoms, lit: any(empty_lit(a_, lambda x: self_field(x, 'layers'), empty=False) for a_ in atoms))
+            for (conds, leaf) in M.cases(M.lift_ite(a[1])):
+                n += 1
+                f = dict(leaf[3]) if isinstance(leaf, tuple) and leaf[0] == 'aggr' and leaf[1].endswith('::Layer') else None
+                if f is None:
+                    bad.append(M.show(leaf)[:80]); continue
+                at = [a_ for c_ in conds for a_ in M.lit_atoms(c_)]
+                frm, to = f.get('from'), f.get('to')
+                if M.is_const(frm, 0) and M.is_const(to, 0):
+                    continue
+                to_ok = M.is_call(to, 'len') and self_field(to[2][0], 'nodes')
+                prev = None
+                if M.is_field(frm, 'to', 'Layer'):
+                    src = frm[1]
+                    if isinstance(src, tuple) and src[0] == 'index' and self_field(src[1], 'layers'):
+                        ix = src[2][1] if M.is_field(src[2], '0') else src[2]
+                        ix = M.simplify_field(ix, '0', None) if isinstance(ix, tuple) and ix and ix[0] == 'aggr' else ix
+                        prev = isinstance(ix, tuple) and ix[0] == 'sub' and M.is_call(ix[1], 'len') and self_field(ix[1][2][0], 'layers') and M.is_const(ix[2], 1)
+                        prev = prev and (okg_n or any(empty_lit(a_, lambda x: self_field(x, 'layers'), empty=False) for a_ in at))
+                    elif src == opt_payload(src[1][1]) if (M.is_field(src, '0') and isinstance(src[1], tuple) and src[1][0] == 'variant') else False:
+                        o = src[1][1]
+                        prev = M.is_call(o, 'last') and self_field(o[2][0], 'layers')
+                first = M.is_const(frm, 0) and (okg_e or any(empty_lit(a_, lambda x: self_field(x, 'layers'), empty=True) for a_ in at) or
+                                                any(opt_is(a_, lambda x: M.is_call(x, 'last') and self_field(x[2][0], 'layers'), 'None') for a_ in at))
+                if not (to_ok and (prev or first)):
+                    bad.append('Layer{from: %s, to: %s}' % (M.show(frm)[:60], M.show(to)[:40]))
+        ctx.check(n > 0 and not bad, 'R06.5', '%s/layer-ranges/%s' % (tag, b.fn_name), b, b.loc(0),
+                  'every recorded layer is {0, 0} (empty marker) or starts where the previous layer ends (0 when there is none) and ends at nodes.len() (%d cases)' % n,
+                  'a recorded layer is not contiguous with the previous one: %s' % bad[:2])
